@@ -37,12 +37,15 @@ func init() {
 	// bech32 (A-B32)
 	DeclareUF("b32ok", []Sort{SStr}, SBool, func(a *Term) []*Term {
 		s := a.Args[0]
-		return []*Term{Implies(a, And(Eq(Len(s), MkI(42)), PrefixOf(MkStr("jkl1"), s), Eq(Len(App("b32dec", s)), MkI(20))))}
+		d := App("b32dec", s)
+		return []*Term{Implies(a, And(PrefixOf(MkStr("jkl1"), s),
+			Or(And(Eq(Len(s), MkI(42)), Eq(Len(d), MkI(20))), And(Eq(Len(s), MkI(62)), Eq(Len(d), MkI(32))))))}
 	})
 	DeclareUF("b32dec", []Sort{SStr}, SStr, nil)
 	DeclareUF("b32enc", []Sort{SStr}, SStr, func(a *Term) []*Term {
 		return []*Term{Eq(App("b32dec", a), a.Args[0]),
 			Implies(Eq(Len(a.Args[0]), MkI(20)), And(App("b32ok", a), Eq(Len(a), MkI(42)))),
+			Implies(Eq(Len(a.Args[0]), MkI(32)), And(App("b32ok", a), Eq(Len(a), MkI(62)))),
 			PrefixOf(MkStr("jkl1"), a)}
 	})
 	ufAlphabet["b32enc"] = "jkl1qpzry9x8gf2tvdw0s3jn54khce6mua7l"
@@ -516,7 +519,7 @@ func shortType(t types.Type) string {
 
 func b32okT(s *Term) *Term {
 	if s.Op == "uf" && s.SV == "b32enc" {
-		return Eq(Len(s.Args[0]), MkI(20))
+		return Or(Eq(Len(s.Args[0]), MkI(20)), Eq(Len(s.Args[0]), MkI(32)))
 	}
 	if s.IsConst() {
 		return MkBool(concreteBech32OK(s.SV))
@@ -538,7 +541,7 @@ func noteAddr(w *World, str, bytes *Term) { w.noteEval("addr", str, bytes) }
 
 func concreteBech32OK(s string) bool {
 	// constants in the code under test that are parsed as addresses are real jkl addresses
-	return strings.HasPrefix(s, "jkl1") && len(s) == 42
+	return strings.HasPrefix(s, "jkl1") && (len(s) == 42 || len(s) == 62)
 }
 
 // ---------- KV store operations
